@@ -18,9 +18,17 @@
 //!        Annual365, two custom TimeDelta) the behaviour names, at the exit times it names, and
 //!        compares the four ratio figures of every instrument sheet (pnl_return, sharpe_ratio,
 //!        sortino_ratio, calmar_ratio) with the squared / factored figures of Stats.tla, plus
-//!        their public scale() to a second interval
+//!        their public scale() to a second interval. Closed positions are delivered with the exit
+//!        times the behaviour names - in ANY order (late exits, exits before the session start): the
+//!        order-free figures and the returns summaries (PnLReturns.total / .losses: count, sum, mean,
+//!        variance) must not notice; where Stats.tla leaves the period end / the curve of Calmar's
+//!        drawdown open (points 4, 5) the generated sheet must be, as a whole, one of the sheets TLC lists.
+//!        Balance snapshots carry total AND free (moving independently); the asset sheet is judged on the
+//!        pair of the last snapshot and on the snapshot that is the last point of its equity curve
 //!   c17 replay --scenarios f --out results --seed S
-//!        DataSetSummary::update: every prefix, scales 10^e e in {-9,0,9}, permutations
+//!        DataSetSummary::update: every prefix, scales 10^e e in {-9,0,9}, permutations; the same values as the
+//!        returns of closed positions through PnLReturns::update and TearSheetGenerator::update_from_position
+//!        (exit times NOT monotone: every third position is delivered late)
 //!   c17 random --seed S --steps N --out results   random DECIMAL datasets of mixed magnitude, judged by
 //!   c17 laws --in f --out results                 the laws Stats.tla states and TLC checks on the batch
 //!        definitions (OrderFreeC17, VarNonNeg, MeanInRange, ShiftScale, std_dev^2 = variance)
@@ -170,7 +178,7 @@ mod c17 {
     use super::*;
     use barter::{
         engine::state::position::PositionExited,
-        statistic::summary::{dataset::DataSetSummary, pnl::PnLReturns},
+        statistic::summary::{dataset::DataSetSummary, instrument::TearSheetGenerator, pnl::PnLReturns},
     };
     use barter_execution::trade::AssetFees;
     use barter_instrument::{Side, asset::QuoteAsset, instrument::InstrumentIndex};
@@ -275,6 +283,15 @@ mod c17 {
         /// PnLReturns::update(closed position with return x): `total` is the running summary of all
         /// returns, `losses` that of the negative ones, pnl_raw their sum (cost of every position = 1)
         PnL,
+        /// TearSheetGenerator::update_from_position(the same closed position): the running summaries of the
+        /// instrument tear sheet, `pnl_returns` - what the engine keeps per instrument
+        Sheet,
+    }
+    /// exit time (seconds) of the k-th closed position of the PnL / Sheet routes: NOT monotone - every third
+    /// position is delivered late, its exit before those of the two delivered before it (and, at first, before
+    /// the start of the session): a dataset summary knows no time, the order of delivery is the order of the dataset
+    fn exit_time(k: usize) -> i64 {
+        if k % 3 == 2 { 2 * k as i64 - 7 } else { 2 * k as i64 + 1 }
     }
 
     /// feed `xs` (already in the order to use) at scale e10; compare after every update when
@@ -285,6 +302,8 @@ mod c17 {
            st: &mut ErrStats, steps: &mut u64, persists: &mut u64) -> Result<(), (usize, String, Value)> {
         let mut ds = DataSetSummary::default();
         let mut pr = PnLReturns::default();
+        let mut ts = TearSheetGenerator::init(time(0));
+        let name = match route { Route::Sheet => "TearSheetGenerator.pnl_returns", _ => "PnLReturns" };
         let shown = |ds: &DataSetSummary, pr: &PnLReturns| if route == Route::Direct { project(ds) } else {
             json!({"total": project(&pr.total), "losses": project(&pr.losses), "pnl_raw": pr.pnl_raw.to_string()})
         };
@@ -299,7 +318,7 @@ mod c17 {
                         return Err((k, format!("DataSetSummary::update({v}) panicked: {p}"), pre));
                     }
                 }
-                Route::PnL => {
+                Route::PnL | Route::Sheet => {
                     // cost price * quantity = 1 exactly, so the return is the realised PnL itself
                     let (price, qty) = [(Decimal::ONE, Decimal::ONE), (Decimal::TWO, Decimal::new(5, 1)), (Decimal::new(25, 2), Decimal::from(4))][k % 3];
                     let pos: PositionExited<QuoteAsset, InstrumentIndex> = PositionExited {
@@ -310,12 +329,17 @@ mod c17 {
                         pnl_realised: v,
                         fees_enter: AssetFees::quote_fees(Decimal::ZERO),
                         fees_exit: AssetFees::quote_fees(Decimal::ZERO),
-                        time_enter: time(2 * k as i64),
-                        time_exit: time(2 * k as i64 + 1),
+                        time_enter: time(exit_time(k) - 1),
+                        time_exit: time(exit_time(k)),
                         trades: vec![],
                     };
-                    if let Err(p) = catch(|| pr.update(&pos)) {
-                        return Err((k, format!("PnLReturns::update(pnl_realised {v}) panicked: {p}"), pre));
+                    if route == Route::Sheet {
+                        if let Err(p) = catch(|| ts.update_from_position(&pos)) {
+                            return Err((k, format!("TearSheetGenerator::update_from_position(pnl_realised {v}, time_exit {} s) panicked: {p}", exit_time(k)), pre));
+                        }
+                        pr = ts.pnl_returns.clone();
+                    } else if let Err(p) = catch(|| pr.update(&pos)) {
+                        return Err((k, format!("PnLReturns::update(pnl_realised {v}, time_exit {} s) panicked: {p}", exit_time(k)), pre));
                     }
                 }
             }
@@ -332,11 +356,11 @@ mod c17 {
                             json_match(exp, &project(ds), "dataset")?;
                         }
                     }
-                    Route::PnL => {
-                        check(exp, &pr.total, e10, st).map_err(|e| format!("PnLReturns.total.{e}{after}"))?;
-                        check(neg, &pr.losses, e10, st).map_err(|e| format!("PnLReturns.losses.{e}{after}"))?;
+                    Route::PnL | Route::Sheet => {
+                        check(exp, &pr.total, e10, st).map_err(|e| format!("{name}.total.{e}{after}"))?;
+                        check(neg, &pr.losses, e10, st).map_err(|e| format!("{name}.losses.{e}{after}"))?;
                         let (n, d) = rat_of(&exp["sum"]).unwrap();
-                        close(n, d, e10, pr.pnl_raw, "PnLReturns.pnl_raw", st)?;
+                        close(n, d, e10, pr.pnl_raw, &format!("{name}.pnl_raw"), st)?;
                     }
                 }
                 Ok(())
@@ -346,6 +370,14 @@ mod c17 {
                 *persists += 1;
                 let r = match route {
                     Route::Direct => persist_ds(&mut ds, "DataSetSummary"),
+                    Route::Sheet => roundtrip(&ts).map_err(|e| format!("Persist TearSheetGenerator: {e}")).and_then(|back| {
+                        if shown(&ds, &back.pnl_returns) != shown(&ds, &pr) {
+                            return Err(format!("Persist TearSheetGenerator: restored {} , stored {}", shown(&ds, &back.pnl_returns), shown(&ds, &pr)));
+                        }
+                        pr = back.pnl_returns.clone();
+                        ts = back;
+                        Ok(())
+                    }),
                     Route::PnL => roundtrip(&pr).map_err(|e| format!("Persist PnLReturns: {e}")).and_then(|back| {
                         if shown(&ds, &back) != shown(&ds, &pr) {
                             return Err(format!("Persist PnLReturns: restored {} , stored {}", shown(&ds, &back), shown(&ds, &pr)));
@@ -393,7 +425,31 @@ mod c17 {
         let tol = Decimal::new(1, 18) * scale.max(Decimal::ONE);
         if (a - b).abs() > tol { Err(format!("{what}: {a} vs {b} (tolerance {tol})")) } else { Ok(()) }
     }
+    /// constant datasets of values that use all 28 significant digits a Decimal holds (division results such as
+    /// returns; large magnitudes): the running sum no longer fits exactly after a dozen updates, yet the mean of a
+    /// constant dataset is that constant, it lies within the range, and the variance is zero - never negative
+    fn laws_of_full_precision(xs: &[Decimal]) -> Result<(), String> {
+        let a = feed(xs)?;
+        if a.count != Decimal::from(xs.len() as u64) {
+            return Err(format!("count: {} for {} values", a.count, xs.len()));
+        }
+        if a.dispersion.variance < Decimal::ZERO {
+            return Err(format!("VarNonNeg: variance {}", a.dispersion.variance));
+        }
+        if a.mean < a.dispersion.range.low || a.mean > a.dispersion.range.high {
+            return Err(format!("MeanInRange: mean {} outside [{}, {}]", a.mean, a.dispersion.range.low, a.dispersion.range.high));
+        }
+        let (lo, hi) = (xs.iter().min().unwrap(), xs.iter().max().unwrap());
+        if a.dispersion.range.low != *lo || a.dispersion.range.high != *hi {
+            return Err(format!("range: [{}, {}] for data in [{lo}, {hi}]", a.dispersion.range.low, a.dispersion.range.high));
+        }
+        near(a.dispersion.variance, Decimal::ZERO, Decimal::ONE, "VarZeroIffConstant")?;
+        Ok(())
+    }
     fn laws_of(xs: &[Decimal], perm: &[usize], shift: Decimal) -> Result<(), String> {
+        if perm.is_empty() {
+            return laws_of_full_precision(xs);
+        }
         let m = xs.iter().map(|x| x.abs()).max().unwrap_or(Decimal::ONE).max(shift.abs());
         let (m1, m2) = (m, m * m);
         let a = feed(xs)?;
@@ -448,7 +504,15 @@ mod c17 {
             }
         } else {
             let mut r = rng(args.u64("seed", 1));
-            for _ in 0..args.usize("steps", 2000) {
+            for step in 0..args.usize("steps", 2000) {
+                if step % 10 == 9 {
+                    // a CONSTANT dataset of a full-precision value (27-28 significant digits, any magnitude up to 1e24),
+                    // 8..40 copies; marked by an empty permutation (judged by laws_of_full_precision)
+                    let mantissa = r.random_range(100_000_000_000_000_000_000_000_000i128..=7_900_000_000_000_000_000_000_000_000i128);
+                    let x = Decimal::from_i128_with_scale(if r.random_bool(0.3) { -mantissa } else { mantissa }, r.random_range(4..=28));
+                    cases.push((vec![x; r.random_range(8..=40)], vec![], Decimal::ZERO));
+                    continue;
+                }
                 let n = r.random_range(1..=12);
                 // mixed magnitudes: mantissa up to 10^6 with 0..8 decimal places, repeats, constants
                 let draw = |r: &mut rand::rngs::StdRng| Decimal::new(r.random_range(-1_000_000i64..=1_000_000), r.random_range(0..=8));
@@ -484,7 +548,7 @@ mod c17 {
         let mut res = Results::new(args.req("out"));
         let mut st = ErrStats::default();
         let (mut perms_run, mut multisets) = (0u64, 0u64);
-        let (mut persists, mut routes) = (0u64, [0u64; 2]);
+        let (mut persists, mut routes) = (0u64, [0u64; 3]);
         for (n, scn) in scenarios.iter().enumerate() {
             let vi = vidx(scn, n);
             let steps = scn["vals"].as_array().unwrap_or_else(|| usage("scenario without vals"));
@@ -498,8 +562,8 @@ mod c17 {
             let mut failure = None;
             // (1) the sequence as given, every prefix, every scale, both routes; the running state is
             //     stored and restored (Persist) where the scenario says so / after every / some updates
-            'main: for route in [Route::Direct, Route::PnL] {
-                if route == Route::PnL && !has_neg {
+            'main: for route in [Route::Direct, Route::PnL, Route::Sheet] {
+                if route != Route::Direct && !has_neg {
                     continue;
                 }
                 for (j, e10) in SCALES.iter().enumerate() {
@@ -557,7 +621,8 @@ mod c17 {
                 Some((k, e, pre, e10, order, route, pm)) => res.fail(
                     n, vi, k, e,
                     json!({"update": order.get(k).map(|x| format!("{x}e{e10}")), "order": order, "scale_e10": e10,
-                           "route": if route == Route::Direct { "DataSetSummary::update" } else { "PnLReturns::update" },
+                           "route": match route { Route::Direct => "DataSetSummary::update", Route::PnL => "PnLReturns::update (exit times not monotone)",
+                                                  Route::Sheet => "TearSheetGenerator::update_from_position (exit times not monotone)" },
                            "store_restore": (["where the scenario says", "after every update", "after some updates"][pm as usize % 3])}),
                     pre, json!({"scale_e10": e10, "persist_mode": pm}),
                 ),
@@ -567,7 +632,8 @@ mod c17 {
         res.out.finish();
         println!("{}", json!({"scenarios": scn, "failed": failed, "updates": steps, "orders_replayed": perms_run,
             "multisets_permuted": multisets, "scales_e10": SCALES, "comparisons": st.comparisons,
-            "arm_hits": {"store_restore": persists, "runs_DataSetSummary_update": routes[0], "runs_PnLReturns_update": routes[1]},
+            "arm_hits": {"store_restore": persists, "runs_DataSetSummary_update": routes[0], "runs_PnLReturns_update": routes[1],
+                         "runs_TearSheetGenerator_update_from_position": routes[2]},
             "max_abs_error": st.max_abs.to_string(), "max_error_over_tolerance": st.max_err_over_tol.to_string()}));
     }
 }
@@ -1274,6 +1340,7 @@ mod c16 {
                 TradingSummary, TradingSummaryGenerator,
                 asset::{TearSheetAsset, TearSheetAssetGenerator},
                 instrument::{TearSheet, TearSheetGenerator},
+                pnl::PnLReturns,
             },
             time::{Annual252, Annual365, Daily, TimeInterval},
         },
@@ -1384,11 +1451,18 @@ mod c16 {
             },
         })
     }
+    /// (`points`: which accepted snapshot is the last point of the equity curve - filled in by the replay
+    /// loop from the generator's clock, `Sut::curve_end`)
     fn asset_json(s: &TearSheetAsset) -> Value {
         match &s.balance_end {
             None => json!("none"),
-            Some(b) => json!({"total": b.total.to_string()}),
+            Some(b) => json!({"total": b.total.to_string(), "free": b.free.to_string(), "points": "unknown"}),
         }
+    }
+    /// projection of the running returns summaries of one instrument (PnLReturns.total / .losses)
+    fn returns_json(r: &PnLReturns) -> Value {
+        json!({"count": r.total.count.to_string(), "sum": r.total.sum.to_string(), "mean": r.total.mean.to_string(),
+               "losses_count": r.losses.count.to_string(), "losses_sum": r.losses.sum.to_string(), "losses_mean": r.losses.mean.to_string()})
     }
     fn empty_sheet() -> Value {
         json!({"pnl": {"n": 0, "d": 1}, "win_rate": "none", "profit_factor": "none"})
@@ -1478,10 +1552,47 @@ mod c16 {
             let a = exp["assets"].get(k).cloned().unwrap_or(json!("none"));
             assets.insert(k.to_string(), if a.is_object() {
                 let (n, d) = scale_frac(i(&a, "total") as i128, 1, e10);
-                json!({"total": {"n": n as i64, "d": d as i64}})
+                let mut o = json!({"total": {"n": n as i64, "d": d as i64}});
+                // (behaviours written before balances carried a free part name the total only)
+                if a.get("free").is_some() {
+                    let (n, d) = scale_frac(i(&a, "free") as i128, 1, e10);
+                    o["free"] = json!({"n": n as i64, "d": d as i64});
+                    o["points"] = a["points"].clone();
+                }
+                o
             } else { a });
         }
-        json!({"instruments": inst, "assets": assets})
+        let mut out = json!({"instruments": inst, "assets": assets});
+        // the returns summaries (returns are scale-free); keys the smaller model does not have: no returns
+        if let Some(r) = exp.get("returns") {
+            let zero = json!({"n": 0, "d": 1});
+            let mut rs = serde_json::Map::new();
+            for (k, ..) in INSTR {
+                rs.insert(k.to_string(), r.get(k).cloned().unwrap_or_else(|| json!({"count": 0, "sum": zero, "mean": zero,
+                    "losses_count": 0, "losses_sum": zero, "losses_mean": zero})));
+            }
+            out["returns"] = Value::Object(rs);
+        }
+        out
+    }
+    /// the projection brought to the shape of the expectation: behaviours written before balances carried a free
+    /// part / before the returns summaries were projected do not name them
+    fn prune(actual: &mut Value, exp: &Value) {
+        if exp.get("returns").is_none() {
+            if let Some(o) = actual.as_object_mut() {
+                o.remove("returns");
+            }
+        }
+        let legacy = exp["assets"].as_object().is_some_and(|m| m.values().any(|a| a.is_object() && a.get("free").is_none()))
+            || exp["assets"].as_object().is_some_and(|m| m.values().all(|a| !a.is_object())) && exp.get("returns").is_none();
+        if let (true, Some(m)) = (legacy, actual["assets"].as_object_mut()) {
+            for a in m.values_mut() {
+                if let Some(o) = a.as_object_mut() {
+                    o.remove("free");
+                    o.remove("points");
+                }
+            }
+        }
     }
 
     // ---- the ratio figures against the squared / factored figures of Stats.tla
@@ -1517,6 +1628,8 @@ mod c16 {
     }
     #[derive(Default)]
     struct RatioStats {
+        /// sheets that matched a reading of open points 4 / 5 (Stats.tla) other than the code's present one
+        other_reading: u64,
         compared: u64,
         open: u64,
         sentinel_scaled_down: u64,
@@ -1756,7 +1869,13 @@ mod c16 {
         /// `t_exit`: exit time in seconds; `spec_time`: it is the exit time the behaviour names (else the
         /// engine mode derives its fill times from `step`, as it always did)
         fn closed(&mut self, inst: usize, p: &Plan, step: u64, t_exit: i64, spec_time: bool, key_by_name: bool) -> Result<(), String>;
-        fn balance(&mut self, asset: usize, total: Decimal, step: u64, key_by_name: bool) -> Result<(), String>;
+        /// an accepted balance snapshot (total, free) stamped `t`; `full`: the engine route delivers it inside a
+        /// full AccountSnapshot instead of a BalanceSnapshot
+        fn balance(&mut self, asset: usize, bal: Balance, t: i64, key_by_name: bool, full: bool) -> Result<(), String>;
+        /// the running returns summaries of one instrument (PnLReturns of its tear-sheet generator)
+        fn returns(&self, inst: usize) -> PnLReturns;
+        /// the time of the last point of an asset's equity curve (the clock of its drawdown generator)
+        fn curve_end(&self, asset: usize) -> chrono::DateTime<chrono::Utc>;
         /// (the summary projection, the ratio figures per instrument key)
         fn generate(&mut self, q: &Query) -> Result<(Value, Value), String>;
         /// a new session of one instrument (spec action Reset): TearSheetGenerator::reset(start)
@@ -1786,8 +1905,8 @@ mod c16 {
             trades: vec![],
         }
     }
-    fn asset_balance<K>(asset: K, total: Decimal, step: u64) -> AssetBalance<K> {
-        AssetBalance { asset, balance: Balance::new(total, total / Decimal::TWO), time_exchange: time(2 * step as i64 + 2) }
+    fn asset_balance<K>(asset: K, balance: Balance, t: i64) -> AssetBalance<K> {
+        AssetBalance { asset, balance, time_exchange: time(t) }
     }
 
     // ---- direct: one TearSheetGenerator per instrument, one TearSheetAssetGenerator per asset
@@ -1803,9 +1922,15 @@ mod c16 {
         fn reset(&mut self, inst: usize, start: i64) -> Result<(), String> {
             catch(|| self.inst[inst].reset(time(start)))
         }
-        fn balance(&mut self, asset: usize, total: Decimal, step: u64, _: bool) -> Result<(), String> {
-            let b = asset_balance(AssetIndex(asset), total, step);
+        fn balance(&mut self, asset: usize, bal: Balance, t: i64, _: bool, _: bool) -> Result<(), String> {
+            let b = asset_balance(AssetIndex(asset), bal, t);
             catch(|| self.assets[asset].update_from_balance(Snapshot(&b)))
+        }
+        fn returns(&self, inst: usize) -> PnLReturns {
+            self.inst[inst].pnl_returns.clone()
+        }
+        fn curve_end(&self, asset: usize) -> chrono::DateTime<chrono::Utc> {
+            self.assets[asset].drawdown.time_now
         }
         fn generate(&mut self, q: &Query) -> Result<(Value, Value), String> {
             let (mut i, mut r) = (serde_json::Map::new(), serde_json::Map::new());
@@ -1855,14 +1980,20 @@ mod c16 {
             self.g.instruments.values_mut().try_for_each(|g| restore(g, "TearSheetGenerator"))?;
             self.g.assets.values_mut().try_for_each(|g| restore(g, "TearSheetAssetGenerator"))
         }
-        fn balance(&mut self, asset: usize, total: Decimal, step: u64, by_name: bool) -> Result<(), String> {
+        fn balance(&mut self, asset: usize, bal: Balance, t: i64, by_name: bool, _: bool) -> Result<(), String> {
             if by_name {
-                let b = asset_balance(asset_key(asset), total, step);
+                let b = asset_balance(asset_key(asset), bal, t);
                 catch(|| self.g.update_from_balance(Snapshot(&b)))
             } else {
-                let b = asset_balance(AssetIndex(asset), total, step);
+                let b = asset_balance(AssetIndex(asset), bal, t);
                 catch(|| self.g.update_from_balance(Snapshot(&b)))
             }
+        }
+        fn returns(&self, inst: usize) -> PnLReturns {
+            self.g.instruments.get_index(inst).map(|(_, g)| g.pnl_returns.clone()).unwrap_or_default()
+        }
+        fn curve_end(&self, asset: usize) -> chrono::DateTime<chrono::Utc> {
+            self.g.assets.get_index(asset).map(|(_, g)| g.drawdown.time_now).unwrap_or_default()
         }
         fn generate(&mut self, q: &Query) -> Result<(Value, Value), String> {
             keys_agree(&self.g)?;
@@ -1951,13 +2082,22 @@ mod c16 {
             }
             Ok(())
         }
-        fn balance(&mut self, asset: usize, total: Decimal, step: u64, _: bool) -> Result<(), String> {
+        fn balance(&mut self, asset: usize, bal: Balance, t: i64, _: bool, full: bool) -> Result<(), String> {
             let exchange = ExchangeIndex(if ASSET[asset].1 == ExchangeId::BinanceSpot { 0 } else { 1 });
-            let ev = EngineEvent::Account(AccountStreamEvent::Item(AccountEvent {
-                exchange,
-                kind: AccountEventKind::BalanceSnapshot(Snapshot(asset_balance(AssetIndex(asset), total, step))),
-            }));
-            catch(|| self.e.process(ev)).map(|_| ())
+            let b = asset_balance(AssetIndex(asset), bal, t);
+            // EngineState::update_from_account: a balance snapshot of its own, or a full account snapshot carrying it
+            let kind = if full {
+                AccountEventKind::Snapshot(barter_execution::AccountSnapshot { exchange, balances: vec![b], instruments: vec![] })
+            } else {
+                AccountEventKind::BalanceSnapshot(Snapshot(b))
+            };
+            catch(|| self.e.process(EngineEvent::Account(AccountStreamEvent::Item(AccountEvent { exchange, kind })))).map(|_| ())
+        }
+        fn returns(&self, inst: usize) -> PnLReturns {
+            self.e.state.instruments.instrument_index(&InstrumentIndex(inst)).tear_sheet.pnl_returns.clone()
+        }
+        fn curve_end(&self, asset: usize) -> chrono::DateTime<chrono::Utc> {
+            self.e.state.assets.asset_index(&AssetIndex(asset)).statistics.drawdown.time_now
         }
         fn generate(&mut self, q: &Query) -> Result<(Value, Value), String> {
             let mut g = catch(|| self.e.trading_summary_generator(q.rf))?;
@@ -2015,7 +2155,11 @@ mod c16 {
         let scenarios = read_ndjson(args.req("scenarios"));
         let mut res = Results::new(args.req("out"));
         let mut tool_errors = vec![];
-        let mut arms = [0u64; 13]; // wins, losses, break-even, balances, generate, by-name keys, flips, equal exits, late exits, clock ticks, store/restore, resets, sheets with ratio figures
+        // wins, losses, break-even, balances, generate, by-name keys, flips, equal exits, late exits, clock ticks, store/restore, resets,
+        // sheets with ratio figures; [13] exits delivered behind a later exit of the SAME instrument, [14] exits before the session
+        // start, balance snapshots after which [15] only the free part / [16] only the total / [17] both / [18] nothing moved,
+        // [19] delivered inside a full account snapshot (engine), [20] sheets for which the specification lists more than one reading
+        let mut arms = [0u64; 21];
         let (mut st, mut rs) = (ErrStats::default(), RatioStats::default());
         let mut ratio_cases: std::collections::BTreeMap<String, u64> = Default::default();
         for (n, scn) in scenarios.iter().enumerate() {
@@ -2031,6 +2175,8 @@ mod c16 {
             // absolute times (seconds after the harness epoch): the latest event, per instrument the start of
             // its session and its latest exit
             let (mut last_t, mut inst_last, mut sess_start) = (var.start, [var.start; 4], [var.start; 4]);
+            // per asset: the times of the snapshots delivered (which one ends the equity curve) and the last pair
+            let (mut bal_times, mut bal_last): (Vec<Vec<i64>>, Vec<Option<(i64, i64)>>) = (vec![vec![]; ASSET.len()], vec![None; ASSET.len()]);
             for (k, e) in evs.iter().enumerate() {
                 res.steps += 1;
                 let step = k as u64;
@@ -2053,9 +2199,12 @@ mod c16 {
                         if let Some(t) = spec_t {
                             // the behaviour names the exit time (seconds since the start of the instrument's session);
                             // instruments have their own times, so equal and late exits across keys come by themselves
+                            // in ANY order: behind a later exit of the same instrument (`late`, decided by TLC), before the session start
                             t_exit = sess_start[inst] + t;
                             arms[7] += (k > 0 && t_exit == last_t) as u64;
                             arms[8] += (t_exit < last_t) as u64;
+                            arms[13] += (e.get("late").and_then(|l| l.as_bool()) == Some(true)) as u64;
+                            arms[14] += (t < 0) as u64;
                             if pick(var.salt, step, 11, 5) == 4 {
                                 sut.tick(last_t.max(t_exit) + 1);
                                 arms[9] += 1;
@@ -2074,7 +2223,8 @@ mod c16 {
                         if mode == "engine" {
                             arms[6] += p.flip_leftover.is_some() as u64;
                         }
-                        inst_last[inst] = t_exit;
+                        // (the latest exit of the instrument: a new session starts at or after it)
+                        inst_last[inst] = inst_last[inst].max(t_exit);
                         last_t = last_t.max(t_exit);
                         shown["position"] = json!({"side": format!("{:?}", p.side), "price_entry_average": p.price.to_string(),
                             "quantity_abs_max": p.qty.to_string(), "pnl_realised": p.pnl.to_string(), "fee_in": p.fee_in.to_string(),
@@ -2087,7 +2237,23 @@ mod c16 {
                     "AddBalance" => {
                         arms[3] += 1;
                         last_t = last_t.max(base_t);
-                        sut.balance(asset_no(s(e, "k")), scaled_dec(i(e, "x"), var.e10), step, by_name)
+                        let asset = asset_no(s(e, "k"));
+                        // total and free of the snapshot (behaviours written before balances carried a free part: half the total)
+                        let with_free = e["exp"]["assets"][s(e, "k")].get("free").is_some();
+                        let (total, free) = (i(e, "x"), if with_free { i(e, "y") } else { 0 });
+                        let bal = Balance::new(scaled_dec(total, var.e10), if with_free { scaled_dec(free, var.e10) } else { scaled_dec(total, var.e10) / Decimal::TWO });
+                        if let (true, Some((t0, f0))) = (with_free, bal_last[asset]) {
+                            arms[match (t0 != total, f0 != free) { (false, true) => 15, (true, false) => 16, (true, true) => 17, (false, false) => 18 }] += 1;
+                        }
+                        bal_last[asset] = Some((total, free));
+                        // accepted snapshots: the exchange times of an asset increase
+                        let t_bal = 2 * step as i64 + 2;
+                        bal_times[asset].push(t_bal);
+                        let full = pick(var.salt, step, 23, 3) == 0;
+                        arms[19] += (full && mode == "engine") as u64;
+                        shown["balance"] = json!({"total": bal.total.to_string(), "free": bal.free.to_string(), "time_exchange": t_bal,
+                            "inside_full_account_snapshot": full && mode == "engine"});
+                        sut.balance(asset, bal, t_bal, by_name, full)
                     }
                     "Generate" => {
                         arms[4] += 1;
@@ -2101,7 +2267,7 @@ mod c16 {
                         // a new session of this instrument, starting at or after its latest exit
                         arms[11] += 1;
                         let inst = instr_no(s(e, "k"));
-                        let start = inst_last[inst] + [0, 1, 3_600][pick(var.salt, step, 21, 3) as usize];
+                        let start = inst_last[inst].max(sess_start[inst]) + [0, 1, 3_600][pick(var.salt, step, 21, 3) as usize];
                         (sess_start[inst], inst_last[inst]) = (start, start);
                         shown["new_session_start"] = json!(start);
                         sut.reset(inst, start)
@@ -2135,8 +2301,41 @@ mod c16 {
                         failure = Some((k, if p.starts_with("KEYS:") { format!("summary.keys: {p}") } else if p.starts_with("Persist") { format!("summary.persist: {p}") } else { format!("panic: {p}") }, shown));
                         break;
                     }
-                    Ok((actual, actual_ratios)) => match json_match(&complete(&e["exp"], var.e10), &actual, "summary") {
+                    Ok((mut actual, actual_ratios)) => match {
+                        // beside the generated summary: the running returns summaries of every instrument, and for every
+                        // asset WHICH accepted snapshot is the last point of its equity curve
+                        let mut rets = serde_json::Map::new();
+                        for (n, (key, ..)) in INSTR.iter().enumerate() {
+                            rets.insert(key.to_string(), returns_json(&sut.returns(n)));
+                        }
+                        actual["returns"] = Value::Object(rets);
+                        for (n, (key, ..)) in ASSET.iter().enumerate() {
+                            if actual["assets"][*key].is_object() {
+                                let end = sut.curve_end(n);
+                                actual["assets"][*key]["points"] = match bal_times[n].iter().position(|t| time(*t) == end) {
+                                    Some(j) => json!(j + 1),
+                                    None => json!(format!("the curve ends at {end}: not the time of a delivered snapshot")),
+                                };
+                            }
+                        }
+                        prune(&mut actual, &e["exp"]);
+                        json_match(&complete(&e["exp"], var.e10), &actual, "summary")
+                    } {
                         Ok(()) => {
+                            // the variances of the returns summaries (ratio domain; the same on every reading)
+                            let variances = ratios.map(|r| INSTR.iter().enumerate().try_for_each(|(n, (key, ..))| {
+                                let (exp, pr) = (r["instruments"].get(*key).unwrap_or(&r["empty"]), sut.returns(n));
+                                for (f, v) in [("var", pr.total.dispersion.variance), ("lossvar", pr.losses.dispersion.variance)] {
+                                    if let Some((n, d)) = exp.get(f).and_then(rat_of) {
+                                        close(n, d, 0, v, &format!("summary.returns.{key}.{}", if f == "var" { "variance" } else { "losses_variance" }), &mut st)?;
+                                    }
+                                }
+                                Ok::<(), String>(())
+                            }));
+                            if let Some(Err(err)) = variances {
+                                failure = Some((k, err, shown));
+                                break;
+                            }
                             if let Some(r) = ratios {
                                 for (key, ..) in INSTR {
                                     // (keys the smaller model does not have: the sheet of the empty history)
@@ -2145,7 +2344,23 @@ mod c16 {
                                     for f in ["sharpe_ratio", "sortino_ratio", "calmar_ratio"] {
                                         *ratio_cases.entry(format!("{f}:{}:{}", exp[f][6].as_str().unwrap_or("?"), exp["scale"].as_str().unwrap_or("?"))).or_default() += 1;
                                     }
-                                    for f in check_ratios(key, exp, &actual_ratios[key], i(r, "ivlen"), i(r, "iwlen"), &mut st, &mut rs) {
+                                    // the sheet on the reading of the code; where the specification leaves the end of the period /
+                                    // the curve of Calmar's drawdown open (late exits: Stats.tla, points 4 and 5) the generated
+                                    // sheet may instead be, AS A WHOLE, the sheet of one of the other readings TLC lists
+                                    let mut fails = check_ratios(key, exp, &actual_ratios[key], i(r, "ivlen"), i(r, "iwlen"), &mut st, &mut rs);
+                                    let alts = exp.get("alt").and_then(|a| a.as_array()).map(|a| a.as_slice()).unwrap_or(&[]);
+                                    arms[20] += (!alts.is_empty()) as u64;
+                                    if !fails.is_empty() && !alts.is_empty() {
+                                        if alts.iter().any(|alt| check_ratios(key, alt, &actual_ratios[key], i(r, "ivlen"), i(r, "iwlen"), &mut st, &mut rs).is_empty()) {
+                                            rs.other_reading += 1;
+                                            fails.clear();
+                                        } else {
+                                            for f in fails.iter_mut() {
+                                                f.error.push_str(&format!(" [late exits: none of the {} readings of the period end / drawdown curve matches]", alts.len() + 1));
+                                            }
+                                        }
+                                    }
+                                    for f in fails {
                                         let sig = format!("{}|{}|{}|{}", f.field, f.case.split(':').next().unwrap_or(""), f.expk, f.gotk);
                                         if !ratio_fails.iter().any(|x| x.0 == sig) {
                                             ratio_fails.push((sig, k, f, shown.clone(), json!({"summary": pre, "ratio_figures_now": actual_ratios[key]})));
@@ -2181,8 +2396,13 @@ mod c16 {
         println!("{}", json!({"scenarios": scn, "failed": failed, "events": steps, "mode": mode, "tool_errors": tool_errors,
             "arm_hits": {"win": arms[0], "loss": arms[1], "break_even": arms[2], "balance": arms[3], "generate_event": arms[4], "keyed_by_name": arms[5],
                          "crossing_fill": arms[6], "equal_exit_time": arms[7], "late_reported_exit": arms[8], "clock_update": arms[9], "store_restore": arms[10],
-                         "reset": arms[11], "sheets_with_ratio_figures": arms[12]},
+                         "reset": arms[11], "sheets_with_ratio_figures": arms[12],
+                         "late_exit_behind_a_later_exit_of_the_same_instrument": arms[13], "exit_before_session_start": arms[14],
+                         "balance_only_free_moved": arms[15], "balance_only_total_moved": arms[16], "balance_both_moved": arms[17],
+                         "balance_repeated_unchanged": arms[18], "balance_inside_full_account_snapshot": arms[19],
+                         "sheets_with_more_than_one_reading": arms[20]},
             "ratio_figures": {"compared": rs.compared, "left_open_by_the_spec": rs.open, "sentinel_scaled_down": rs.sentinel_scaled_down,
+                              "sheets_matching_another_reading_than_the_code's": rs.other_reading,
                               "rescaled_with_scale()": rs.rescaled, "max_error_over_tolerance": rs.max_err_over_tol.to_string(), "cases": ratio_cases}}));
     }
 }
